@@ -48,6 +48,7 @@ import (
 	corev1alpha1 "package-operator.run/apis/core/v1alpha1"
 	"package-operator.run/internal/apis/manifests"
 	"package-operator.run/internal/constants"
+	hypershiftv1beta1 "package-operator.run/internal/controllers/hostedclusters/hypershift/v1beta1"
 	"package-operator.run/internal/controllers/objecttemplate"
 	"package-operator.run/internal/dynamiccache"
 )
@@ -65,7 +66,7 @@ type tSource struct {
 // tCode: one member of the template family.
 // form 0: data = the whole config (range); 1: data = picked destinations via .config.kN (missingkey=error);
 // 2: picked destinations via index|default; 3: whole config + environment version under key 99;
-// 4: unparsable template text; 5: renders to text that is not YAML.
+// 4: unparsable template text; 5: renders to text that is not YAML; 6: like 3 + the HyperShift part of the environment under key 98.
 type tCode struct {
 	Form  int   `json:"form"`
 	Kind  int   `json:"kind"`
@@ -106,7 +107,10 @@ type tTmpl struct {
 }
 
 type tStep struct {
-	Op      string    `json:"op"` // put | del | tedit | pass | drain | tdel | env | poke
+	Op      string    `json:"op"` // put | del | tedit | pass | drain | passx | tdel | env | hyper | hc | aux | poke
+	B       bool      `json:"b,omitempty"`   // hyper: section present; hc: HostedCluster present
+	NS      int       `json:"ns,omitempty"`  // hc, aux: the namespace
+	Adv     []tAct    `json:"adv,omitempty"` // passx: what happens before the n-th API request of the pass
 	LOther  int       `json:"lother,omitempty"`
 	Key     *[3]int   `json:"key,omitempty"`
 	Data    [][2]int  `json:"data,omitempty"`
@@ -118,6 +122,15 @@ type tStep struct {
 	Conds   []tCond   `json:"conds,omitempty"`
 }
 
+// tAct: before request N of the pass takes effect, a third party deletes / modifies an object, or the request fails.
+type tAct struct {
+	N     int      `json:"n"`
+	Op    string   `json:"op"` // del | put | fault
+	Key   *[3]int  `json:"key,omitempty"`
+	Data  [][2]int `json:"data,omitempty"`
+	Fault string   `json:"fault,omitempty"` // NotFound | Conflict | Internal
+}
+
 type tScenario struct {
 	IvRes int      `json:"iv_res"` // ResourceRetryInterval in seconds (0 = unset)
 	IvOpt int      `json:"iv_opt"` // OptionalResourceRetryInterval in seconds
@@ -126,6 +139,8 @@ type tScenario struct {
 	Store []tObj   `json:"store"`
 	Watch [][2]int `json:"watch"` // pre-existing cache owner entries (kind, owner)
 	Env   int      `json:"env"`
+	Hs    bool     `json:"hs"`  // the environment handed to the sink has a HyperShift section
+	Hcs   []int    `json:"hcs"` // namespaces a HostedCluster object maps to
 	Steps []tStep  `json:"steps"`
 }
 
@@ -152,13 +167,15 @@ type tSnap struct {
 	Tmpl    *tTmplState `json:"tmpl"`
 	Watch   [][2]int    `json:"watch"`
 	Pending bool        `json:"pending"` // a request for the template sits in the (recording) work queue
+	Hcs     []int       `json:"hcs"`     // namespaces the HostedCluster objects on the API server map to
 }
 
 type tStepObs struct {
-	Kind    string `json:"kind"` // pass | enq | none
+	Kind    string `json:"kind"` // pass | enq | aux | none
+	Aux     int    `json:"aux"`  // aux: what the other template rendered for the HyperShift part
 	Evs     []tEv  `json:"evs,omitempty"`
 	Requeue int    `json:"requeue"`
-	Err     int    `json:"err"` // 0 none, 1 yaml, 2 creation, 3 update, 4 malformed condition, 9 other
+	Err     int    `json:"err"` // 0 none, 1 yaml, 2 creation, 3 update, 4 malformed condition, 5 get of the template, 6 finalizer patch, 7 uncached get, 8 label patch, 9 status update, 99 other
 	ErrMsg  string `json:"errmsg,omitempty"`
 	Enq     bool   `json:"enq"`
 	Snap    tSnap  `json:"snap"`
@@ -238,9 +255,32 @@ const (
 	tOtherName = "other"
 )
 
+// Namespaces are "ns-<n>" so that a HostedCluster {namespace "ns", name "<n>"} maps to them
+// (hypershift HostedClusterNamespace = namespace + "-" + name).
+func tNsName(n int) string {
+	if n == 0 {
+		return ""
+	}
+	return "ns-" + strconv.Itoa(n)
+}
+
+func tNsNum(s string) int {
+	if s == "" {
+		return 0
+	}
+	n, err := strconv.Atoi(strings.TrimPrefix(s, "ns-"))
+	if err != nil {
+		return -1
+	}
+	return n
+}
+
 func tDataKey(prefix string, n int) string {
 	if n == 99 {
 		return "e"
+	}
+	if n == 98 {
+		return "h"
 	}
 	return prefix + strconv.Itoa(n)
 }
@@ -256,6 +296,9 @@ func tConcreteData(prefix string, d [][2]int) map[string]any {
 func tNum(s string) int {
 	if s == "e" {
 		return 99
+	}
+	if s == "h" {
+		return 98
 	}
 	if len(s) < 2 {
 		return -1
@@ -283,7 +326,7 @@ func tAbsData(m map[string]any) [][2]int {
 }
 
 func tAbsKey(gvk schema.GroupVersionKind, ns, name string) [3]int {
-	return [3]int{tkOf(gvk), num("ns", ns), num("n", name)}
+	return [3]int{tkOf(gvk), tNsNum(ns), num("n", name)}
 }
 
 var tStatusNames = []string{"False", "True", "Unknown"}
@@ -304,7 +347,7 @@ func (o tObj) concrete(prefix string) map[string]any {
 	i := tkTable[o.Key[0]]
 	md := map[string]any{"name": "n" + strconv.Itoa(o.Key[2]), "generation": int64(o.Gen)}
 	if o.Key[1] != 0 {
-		md["namespace"] = nsName(o.Key[1])
+		md["namespace"] = tNsName(o.Key[1])
 	}
 	if o.Label {
 		md["labels"] = map[string]any{constants.DynamicCacheLabel: "True"}
@@ -415,7 +458,7 @@ func tConcreteSources(srcs []tSource) []any {
 		}
 		m := map[string]any{"apiVersion": i.apiVersion, "kind": i.kind, "name": "n" + strconv.Itoa(s.Name), "items": items}
 		if s.NS != 0 {
-			m["namespace"] = nsName(s.NS)
+			m["namespace"] = tNsName(s.NS)
 		}
 		if s.Opt {
 			m["optional"] = true
@@ -424,6 +467,11 @@ func tConcreteSources(srcs []tSource) []any {
 	}
 	return out
 }
+
+// tHyperExpr prints the HyperShift part of the environment: "v0" no section, "v1" section without HostedCluster,
+// "v1<name>" the HostedCluster (its name is the number of the namespace it maps to).
+const tHyperExpr = `{{ $hs := index .environment "hyperShift" }}{{ if $hs }}{{ $hc := index $hs "hostedCluster" }}` +
+	`{{ if $hc }}"v1{{ index $hc "metadata" "name" }}"{{ else }}"v1"{{ end }}{{ else }}"v0"{{ end }}`
 
 // tTemplateText: the Go template text of a family member.
 func tTemplateText(c tCode) string {
@@ -437,17 +485,20 @@ func tTemplateText(c tCode) string {
 	var b strings.Builder
 	fmt.Fprintf(&b, "apiVersion: %s\nkind: %s\nmetadata:\n  name: n%d\n", i.apiVersion, i.kind, c.Name)
 	if c.NS != 0 {
-		fmt.Fprintf(&b, "  namespace: %s\n", nsName(c.NS))
+		fmt.Fprintf(&b, "  namespace: %s\n", tNsName(c.NS))
 	}
 	if c.ORefs {
 		b.WriteString("  ownerReferences:\n  - apiVersion: v1\n    kind: ConfigMap\n    name: someone\n    uid: u77\n")
 	}
 	b.WriteString("data:\n")
 	switch c.Form {
-	case 0, 3:
+	case 0, 3, 6:
 		b.WriteString("{{- range $k, $v := .config }}\n  {{ $k }}: {{ $v | quote }}\n{{- end }}\n")
-		if c.Form == 3 {
+		if c.Form != 0 {
 			b.WriteString("  e: {{ .environment.kubernetes.version | quote }}\n")
+		}
+		if c.Form == 6 {
+			b.WriteString("  h: " + tHyperExpr + "\n")
 		}
 	case 1:
 		for _, d := range c.Pick {
@@ -470,14 +521,14 @@ func (h *tHarness) tmplGVK() schema.GroupVersionKind {
 
 func (h *tHarness) tmplKey(name string) storeKey {
 	gvk := h.tmplGVK()
-	return storeKey{gvk.Group, gvk.Kind, nsName(h.tns), name}
+	return storeKey{gvk.Group, gvk.Kind, tNsName(h.tns), name}
 }
 
 func (h *tHarness) tmplObject(name, uid string, t *tTmpl) map[string]any {
 	gvk := h.tmplGVK()
 	md := map[string]any{"name": name, "uid": uid, "generation": int64(1)}
 	if h.tns != 0 {
-		md["namespace"] = nsName(h.tns)
+		md["namespace"] = tNsName(h.tns)
 	}
 	m := map[string]any{"apiVersion": gvk.GroupVersion().String(), "kind": gvk.Kind, "metadata": md,
 		"spec": map[string]any{"template": "", "sources": []any{}}}
@@ -509,7 +560,7 @@ func (h *tHarness) tmplObject(name, uid string, t *tTmpl) map[string]any {
 	if t.CtrlOf != nil {
 		gvk := tkGVK(t.CtrlOf[0])
 		st["controllerOf"] = map[string]any{"kind": gvk.Kind, "group": gvk.Group, "name": "n" + strconv.Itoa(t.CtrlOf[2]),
-			"namespace": nsName(t.CtrlOf[1])}
+			"namespace": tNsName(t.CtrlOf[1])}
 	}
 	if len(st) > 0 {
 		m["status"] = st
@@ -554,7 +605,7 @@ func tAbsTmpl(m map[string]any) *tTmplState {
 		n, _ := co["name"].(string)
 		ns, _ := co["namespace"].(string)
 		if k != "" || n != "" {
-			key := [3]int{tkOf(schema.GroupVersionKind{Group: g, Kind: k}), num("ns", ns), num("n", n)}
+			key := [3]int{tkOf(schema.GroupVersionKind{Group: g, Kind: k}), tNsNum(ns), num("n", n)}
 			t.CtrlOf = &key
 		}
 	}
@@ -573,6 +624,53 @@ type tHarness struct {
 	cache   *dynamiccache.Cache
 	queue   *tQueue
 	pending bool
+	adv     []tAct
+	advOn   bool
+	reqNo   int
+}
+
+// before: request number reqNo of the current pass is about to take effect.
+func (h *tHarness) before() error {
+	if !h.advOn {
+		return nil
+	}
+	n := h.reqNo
+	h.reqNo++
+	var fault error
+	for _, a := range h.adv {
+		if a.N != n {
+			continue
+		}
+		switch a.Op {
+		case "del":
+			h.s.RawDelete(h.objKey(*a.Key))
+		case "put":
+			k := h.objKey(*a.Key)
+			if old := h.s.RawGet(k); old != nil {
+				upd := deepCopyMap(old)
+				upd["data"] = tConcreteData("k", a.Data)
+				if !dataEq(old, upd) {
+					u := &unstructured.Unstructured{Object: upd}
+					u.SetGeneration(u.GetGeneration() + 1)
+					h.s.RawPut(upd, true)
+				}
+			}
+		case "fault":
+			if fault == nil {
+				gr := schema.GroupResource{Resource: "injected"}
+				switch a.Fault {
+				case "NotFound":
+					fault = apierrors.NewNotFound(gr, "injected")
+				case "Conflict":
+					fault = apierrors.NewConflict(gr, "injected", fmt.Errorf("injected fault"))
+				default:
+					fault = apierrors.NewInternalError(fmt.Errorf("injected fault"))
+				}
+			}
+		}
+	}
+	h.im.syncAll()
+	return fault
 }
 
 // record: every write of the controller is followed by a resync of the informers, i.e. the cache is taken
@@ -610,7 +708,18 @@ func (c *tClient) Get(ctx context.Context, key client.ObjectKey, obj client.Obje
 	if tIsRoot(c.h.mapper, c.gvkOf(obj)) {
 		key.Namespace = "" // NamespaceIfScoped
 	}
+	if err := c.h.before(); err != nil {
+		return err
+	}
 	return c.Store.Get(ctx, key, obj, opts...)
+}
+
+// do: the request takes effect unless a scheduled fault replaces its answer.
+func (c *tClient) do(f func() error) error {
+	if err := c.h.before(); err != nil {
+		return err
+	}
+	return f()
 }
 
 func (c *tClient) sentEvent(verb string, obj client.Object) tEv {
@@ -633,7 +742,7 @@ func (c *tClient) Create(ctx context.Context, obj client.Object, opts ...client.
 		return c.Store.Create(ctx, obj, opts...)
 	}
 	e := c.sentEvent("create", obj)
-	err := c.Store.Create(ctx, obj, opts...)
+	err := c.do(func() error { return c.Store.Create(ctx, obj, opts...) })
 	e.Res = resName(err)
 	c.h.record(e)
 	return err
@@ -646,12 +755,12 @@ func (c *tClient) Update(ctx context.Context, obj client.Object, opts ...client.
 		return c.Store.Update(ctx, obj, opts...)
 	}
 	e := c.sentEvent("update", obj)
-	var err error
-	if tIsRoot(c.h.mapper, gvk) && obj.GetNamespace() != "" {
-		err = apierrors.NewBadRequest("the namespace of the provided object does not match the namespace sent on the request")
-	} else {
-		err = c.Store.Update(ctx, obj, opts...)
-	}
+	err := c.do(func() error {
+		if tIsRoot(c.h.mapper, gvk) && obj.GetNamespace() != "" {
+			return apierrors.NewBadRequest("the namespace of the provided object does not match the namespace sent on the request")
+		}
+		return c.Store.Update(ctx, obj, opts...)
+	})
 	e.Res = resName(err)
 	c.h.record(e)
 	return err
@@ -677,7 +786,7 @@ func (c *tClient) Patch(ctx context.Context, obj client.Object, patch client.Pat
 				}
 			}
 		}
-		err := c.Store.Patch(ctx, obj, client.RawPatch(patch.Type(), data), opts...)
+		err := c.do(func() error { return c.Store.Patch(ctx, obj, client.RawPatch(patch.Type(), data), opts...) })
 		e.Res = resName(err)
 		c.h.record(e)
 		return err
@@ -695,9 +804,12 @@ func (c *tClient) Patch(ctx context.Context, obj client.Object, patch client.Pat
 	if v, ok, _ := unstructured.NestedString(pm, "metadata", "labels", constants.DynamicCacheLabel); ok && v == "True" && len(pm) == 1 {
 		e.E = "patch-label"
 	}
-	err = c.Store.Patch(ctx, target, client.RawPatch(patch.Type(), data), opts...)
+	err = c.do(func() error { return c.Store.Patch(ctx, target, client.RawPatch(patch.Type(), data), opts...) })
 	if target != obj && err == nil {
 		u.Object = target.(*unstructured.Unstructured).Object
+	}
+	if err == nil && isU {
+		e.Data = tAbsData(u.Object) // what the API server answered: the pass goes on with this
 	}
 	e.Res = resName(err)
 	c.h.record(e)
@@ -715,7 +827,10 @@ type tStatusWriter struct {
 }
 
 func (w *tStatusWriter) Update(ctx context.Context, obj client.Object, opts ...client.SubResourceUpdateOption) error {
-	err := w.SubResourceWriter.Update(ctx, obj, opts...)
+	err := w.h.before()
+	if err == nil {
+		err = w.SubResourceWriter.Update(ctx, obj, opts...)
+	}
 	w.h.record(tEv{E: "status", Res: resName(err)})
 	return err
 }
@@ -798,6 +913,16 @@ type tCache struct {
 	h *tHarness
 }
 
+func (c *tCache) Get(ctx context.Context, key client.ObjectKey, obj client.Object, opts ...client.GetOption) error {
+	err := c.Cache.Get(ctx, key, obj, opts...)
+	if u, ok := obj.(*unstructured.Unstructured); ok && err == nil {
+		gvk := u.GroupVersionKind()
+		k := tAbsKey(gvk, u.GetNamespace(), u.GetName())
+		c.h.trace = append(c.h.trace, tEv{E: "cache-hit", Key: &k, Data: tAbsData(u.Object)})
+	}
+	return err
+}
+
 func (c *tCache) Watch(ctx context.Context, owner client.Object, obj runtime.Object) error {
 	c.h.record(tEv{E: "watch", Kind: tkOf(obj.GetObjectKind().GroupVersionKind())})
 	return c.Cache.Watch(ctx, owner, obj)
@@ -822,7 +947,7 @@ func (q *tQueue) Add(r reconcile.Request) { q.added = append(q.added, r) }
 func (h *tHarness) ownerObject(owner int) client.Object {
 	u := &unstructured.Unstructured{}
 	u.SetGroupVersionKind(h.tmplGVK())
-	u.SetNamespace(nsName(h.tns))
+	u.SetNamespace(tNsName(h.tns))
 	if owner == 1 {
 		u.SetName(tTmplName)
 		u.SetUID(tMeUID)
@@ -835,7 +960,7 @@ func (h *tHarness) ownerObject(owner int) client.Object {
 
 func (h *tHarness) objKey(k [3]int) storeKey {
 	gvk := tkGVK(k[0])
-	return storeKey{gvk.Group, gvk.Kind, nsName(k[1]), "n" + strconv.Itoa(k[2])}
+	return storeKey{gvk.Group, gvk.Kind, tNsName(k[1]), "n" + strconv.Itoa(k[2])}
 }
 
 func hasLabel(m map[string]any) bool {
@@ -860,7 +985,7 @@ func (h *tHarness) deliver(gvk schema.GroupVersionKind, old, new map[string]any)
 		}
 	}
 	for _, r := range h.queue.added {
-		if r.Name == tTmplName && r.Namespace == nsName(h.tns) {
+		if r.Name == tTmplName && r.Namespace == tNsName(h.tns) {
 			return true
 		}
 	}
@@ -941,18 +1066,81 @@ func (h *tHarness) stepTDel() error {
 	return h.s.Delete(context.Background(), u)
 }
 
-func envOf(n int) *manifests.PackageEnvironment {
-	return &manifests.PackageEnvironment{Kubernetes: manifests.PackageEnvironmentKubernetes{Version: "v" + strconv.Itoa(n)}}
+func envOf(n int, hs bool) *manifests.PackageEnvironment {
+	env := &manifests.PackageEnvironment{Kubernetes: manifests.PackageEnvironmentKubernetes{Version: "v" + strconv.Itoa(n)}}
+	if hs {
+		env.HyperShift = &manifests.PackageEnvironmentHyperShift{}
+	}
+	return env
+}
+
+var tHCGVK = hypershiftv1beta1.GroupVersion.WithKind("HostedCluster")
+
+func (h *tHarness) hcKey(ns int) storeKey {
+	return storeKey{tHCGVK.Group, tHCGVK.Kind, "ns", strconv.Itoa(ns)}
+}
+
+func (h *tHarness) setHC(ns int, present bool) {
+	if !present {
+		h.s.RawDelete(h.hcKey(ns))
+		return
+	}
+	h.s.RawPut(map[string]any{"apiVersion": tHCGVK.GroupVersion().String(), "kind": tHCGVK.Kind,
+		"metadata": map[string]any{"name": strconv.Itoa(ns), "namespace": "ns"}}, true)
+}
+
+const tAuxTarget = 200
+
+// auxPass: the same controller reconciles another ObjectTemplate, "aux" in namespace ns, which has no sources
+// and prints the HyperShift part of its environment into ConfigMap n200 of that namespace. Returns what it printed.
+func (h *tHarness) auxPass(ctx context.Context, c *objecttemplate.GenericObjectTemplateController, ns int) (int, error) {
+	gvk := h.tmplGVK()
+	k := storeKey{gvk.Group, gvk.Kind, tNsName(ns), "aux"}
+	if h.s.RawGet(k) == nil {
+		text := fmt.Sprintf("apiVersion: v1\nkind: ConfigMap\nmetadata:\n  name: n%d\ndata:\n  h: %s\n", tAuxTarget, tHyperExpr)
+		md := map[string]any{"name": "aux", "uid": "aux" + strconv.Itoa(ns), "generation": int64(1)}
+		if ns != 0 {
+			md["namespace"] = tNsName(ns)
+		}
+		h.s.RawPut(map[string]any{"apiVersion": gvk.GroupVersion().String(), "kind": gvk.Kind, "metadata": md,
+			"spec": map[string]any{"template": text, "sources": []any{}}}, true)
+	}
+	h.im.syncAll()
+	saved := h.trace
+	_, err := c.Reconcile(ctx, ctrl.Request{NamespacedName: types.NamespacedName{Name: "aux", Namespace: tNsName(ns)}})
+	h.trace = saved
+	if err != nil {
+		return -1, nil
+	}
+	cm := h.s.RawGet(storeKey{"", "ConfigMap", tNsName(ns), "n" + strconv.Itoa(tAuxTarget)})
+	if cm == nil {
+		return -2, nil
+	}
+	d := tAbsData(cm)
+	if len(d) != 1 {
+		return -3, nil
+	}
+	return d[0][1], nil
 }
 
 func (h *tHarness) snapshot() tSnap {
-	sn := tSnap{Store: []tObj{}, Watch: [][2]int{}, Pending: h.pending}
+	sn := tSnap{Store: []tObj{}, Watch: [][2]int{}, Pending: h.pending, Hcs: []int{}}
 	for _, k := range h.s.RawKeys() {
 		if k.Group == corev1alpha1.GroupVersion.Group {
 			continue
 		}
-		sn.Store = append(sn.Store, tAbsObj(h.s.RawGet(k)))
+		if k.Group == tHCGVK.Group {
+			n, _ := strconv.Atoi(k.Name)
+			sn.Hcs = append(sn.Hcs, n)
+			continue
+		}
+		o := tAbsObj(h.s.RawGet(k))
+		if o.Key[2] >= tAuxTarget {
+			continue // targets of the other templates (aux passes) live outside the abstraction
+		}
+		sn.Store = append(sn.Store, o)
 	}
+	sort.Ints(sn.Hcs)
 	sort.Slice(sn.Store, func(i, j int) bool {
 		a, b := sn.Store[i].Key, sn.Store[j].Key
 		if a[0] != b[0] {
@@ -966,6 +1154,9 @@ func (h *tHarness) snapshot() tSnap {
 	sn.Tmpl = tAbsTmpl(h.s.RawGet(h.tmplKey(tTmplName)))
 	for kind := 1; kind <= 4; kind++ {
 		for _, o := range h.cache.OwnersForGKV(tkGVK(kind)) {
+			if strings.HasPrefix(string(o.UID), "aux") {
+				continue
+			}
 			id := 2
 			if string(o.UID) == tMeUID {
 				id = 1
@@ -994,14 +1185,24 @@ func tErrClass(err error) int {
 		return 3
 	case strings.Contains(err.Error(), "updating status conditions from owned object"):
 		return 4
-	default:
+	case strings.Contains(err.Error(), "adding finalizer"), strings.Contains(err.Error(), "removing finalizer"):
+		return 6
+	case strings.Contains(err.Error(), "from uncachedClient"):
+		return 7
+	case strings.Contains(err.Error(), "patching source object for cache"):
+		return 8
+	case strings.Contains(err.Error(), "updating ObjectTemplate status"):
 		return 9
+	case apierrors.IsInternalError(err) || apierrors.IsConflict(err):
+		return 5 // the unwrapped answer of the Get of the ObjectTemplate
+	default:
+		return 99
 	}
 }
 
 // reference: render the CURRENT sources of the CURRENT template spec through the real
 // copySourceItems and the real transformer, without any controller state.
-func (h *tHarness) reference(env int) tRef {
+func (h *tHarness) reference(env int, hs bool) tRef {
 	tm := h.s.RawGet(h.tmplKey(tTmplName))
 	if tm == nil {
 		return tRef{Status: "absent"}
@@ -1016,7 +1217,7 @@ func (h *tHarness) reference(env int) tRef {
 		gvk := gv.WithKind(src.Kind)
 		ns := src.Namespace
 		if ns == "" {
-			ns = nsName(h.tns)
+			ns = tNsName(h.tns)
 		}
 		if tIsRoot(h.mapper, gvk) {
 			ns = ""
@@ -1033,7 +1234,14 @@ func (h *tHarness) reference(env int) tRef {
 		}
 	}
 	envData := map[string]any{}
-	b, _ := json.Marshal(envOf(env))
+	pe := envOf(env, hs)
+	if hs && h.tns != 0 && h.s.RawGet(h.hcKey(h.tns)) != nil {
+		pe.HyperShift.HostedCluster = &manifests.PackageEnvironmentHyperShiftHostedCluster{
+			TemplateContextObjectMeta: manifests.TemplateContextObjectMeta{Name: strconv.Itoa(h.tns), Namespace: "ns"},
+			HostedClusterNamespace:    tNsName(h.tns),
+		}
+	}
+	b, _ := json.Marshal(pe)
 	_ = json.Unmarshal(b, &envData)
 	out, err := objecttemplate.VerifC18Transform(context.Background(),
 		objecttemplate.TemplateContext{Config: cfg, Environment: envData}, []byte(spec.Template))
@@ -1055,6 +1263,7 @@ func init() {
 			return nil, err
 		}
 		h := &tHarness{scheme: newScheme(), mapper: newTemplateMapper(), tns: sc.TNS}
+		_ = hypershiftv1beta1.AddToScheme(h.scheme)
 		h.s = NewStore(h.scheme, h.mapper)
 		h.im = &tInformerMap{h: h, entries: map[schema.GroupVersionKind]*tInformerEntry{}}
 		h.cache = dynamiccache.VerifC18NewCache(h.scheme, h.im)
@@ -1071,8 +1280,11 @@ func init() {
 		} else {
 			c = objecttemplate.NewObjectTemplateController(cl, cl, logr.Discard(), dc, h.scheme, h.mapper, cfg)
 		}
-		env := sc.Env
-		c.SetEnvironment(envOf(env))
+		env, hs := sc.Env, sc.Hs
+		c.SetEnvironment(envOf(env, hs))
+		for _, ns := range sc.Hcs {
+			h.setHC(ns, true)
+		}
 		ctx := context.Background()
 		// what SetupWithManager wires: the cache source with the real enqueue mapper, started with the controller's queue
 		typed, err := h.scheme.New(h.tmplGVK())
@@ -1100,7 +1312,7 @@ func init() {
 			}
 		}
 		out := tObsOut{Init: h.snapshot(), Steps: []tStepObs{}}
-		req := ctrl.Request{NamespacedName: types.NamespacedName{Name: tTmplName, Namespace: nsName(sc.TNS)}}
+		req := ctrl.Request{NamespacedName: types.NamespacedName{Name: tTmplName, Namespace: tNsName(sc.TNS)}}
 		for _, st := range sc.Steps {
 			so := tStepObs{Kind: "none"}
 			switch st.Op {
@@ -1120,16 +1332,29 @@ func init() {
 				}
 			case "env":
 				env = st.Env
-				c.SetEnvironment(envOf(env))
-			case "pass", "drain":
+				c.SetEnvironment(envOf(env, hs))
+			case "hyper":
+				hs = st.B
+				c.SetEnvironment(envOf(env, hs))
+			case "hc":
+				h.setHC(st.NS, st.B)
+			case "aux":
+				v, err := h.auxPass(ctx, c, st.NS)
+				if err != nil {
+					return nil, err
+				}
+				so.Kind, so.Aux = "aux", v
+			case "pass", "drain", "passx":
 				if st.Op == "drain" && !h.pending {
 					break // the worker finds no request
 				}
 				h.pending = false
+				h.adv, h.advOn, h.reqNo = st.Adv, st.Op == "passx", 0
 				h.im.syncAll()
 				h.s.ResetPass()
 				h.trace = nil
 				res, err := c.Reconcile(ctx, req)
+				h.advOn = false
 				so.Kind = "pass"
 				so.Evs = h.trace
 				if so.Evs == nil {
@@ -1149,7 +1374,7 @@ func init() {
 			so.Snap = h.snapshot()
 			out.Steps = append(out.Steps, so)
 		}
-		out.Ref = h.reference(env)
+		out.Ref = h.reference(env, hs)
 		return out, nil
 	})
 }
